@@ -386,6 +386,21 @@ where
     for (c, n) in moles.iter().enumerate() {
         moles_dev = moles_dev.max((n - pd[c] * int_one).abs() / (pd[c] * int_one));
     }
+    // segment -> component aggregation (integrate_segments) on a field with a distinct constant per segment:
+    // the model (UniformELC16.aggregate) says component c receives the integral of its LAST segment
+    let mut tf = rho.clone();
+    for (s, mut lane) in tf.outer_iter_mut().enumerate() {
+        lane.fill((s + 1) as f64);
+    }
+    let tfq = Dimensionless::from_reduced(tf);
+    let seg_int = profile.integrate_comp(&tfq).to_reduced();
+    let agg = profile.integrate_segments(&tfq).to_reduced();
+    let mut agg_dev: f64 = if agg.len() == pd.len() { 0.0 } else { f64::INFINITY };
+    for c in 0..agg.len().min(pd.len()) {
+        let expect = ci.iter().enumerate().filter(|(_, &cc)| cc == c).map(|(s, _)| seg_int[s]).last().unwrap_or(0.0);
+        let expect_w = ci.iter().enumerate().filter(|(_, &cc)| cc == c).map(|(s, _)| (s + 1) as f64 * int_one).last().unwrap_or(0.0);
+        agg_dev = agg_dev.max((agg[c] - expect).abs() / int_one).max((agg[c] - expect_w).abs() / (int_one * ci.len() as f64));
+    }
     // excess quantities as the library computes them: Omega + p V, N - rho V
     let big_omega = profile.grand_potential().unwrap().to_reduced();
     let excess_omega = (big_omega + p * volume) / (pscale * volume);
@@ -400,6 +415,7 @@ where
         "res_max": fin(res_max), "res_log_max": fin(res_log_max), "res_bulk_max": fin(res_bulk_max),
         "res_norm_rel": fin(res_norm / rho_max),
         "pressure": p, "omega_dev": fin(omega_dev),
+        "component_index": ci.to_vec(), "moles": moles.to_vec(), "agg_dev": fin(agg_dev),
         "moles_dev": fin(moles_dev), "excess_omega_rel": fin(excess_omega), "excess_n_rel": fin(excess_n),
     })
 }
@@ -565,6 +581,22 @@ fn main() {
         let f = Arc::new(feos::saftvrqmie::SaftVRQMieFunctional::new(Arc::new(p)));
         let b = bulk_state(&f, rng.range(25.0, 80.0), &[rng.range(0.001, 0.02)]);
         add("SAFT-VRQ Mie hydrogen", &mut |s, d, l| run_uniform(s, d, &b, l));
+    }
+    {
+        // heterosegmented MIXTURES: non-equimolar, components with different numbers of segments
+        let f = gc_functional(&["propane", "butane"]);
+        let b = bulk_state(&f, rng.range(250.0, 400.0), &[rng.range(0.0003, 0.002), rng.range(0.002, 0.005)]);
+        add("gc-PC-SAFT propane/butane (hetero mixture)", &mut |s, d, l| run_uniform(s, d, &b, l));
+    }
+    {
+        let f = gc_functional(&["pentane", "ethane", "isobutane"]);
+        let b = bulk_state(&f, rng.range(250.0, 400.0), &[rng.range(0.0002, 0.001), rng.range(0.002, 0.004), rng.range(0.001, 0.002)]);
+        add("gc-PC-SAFT pentane/ethane/isobutane (hetero mixture)", &mut |s, d, l| run_uniform(s, d, &b, l));
+    }
+    if full {
+        let f = gc_functional(&["ethanol", "hexane"]);
+        let b = bulk_state(&f, rng.range(300.0, 450.0), &[rng.range(0.002, 0.006), rng.range(0.0003, 0.001)]);
+        add("gc-PC-SAFT ethanol/hexane (hetero mixture, association)", &mut |s, d, l| run_uniform(s, d, &b, l));
     }
     let _ = arr1(&[0.0]);
 
